@@ -1,6 +1,8 @@
 #!/usr/bin/env python3
 """Run checks against a seeded change: apply the patch to /repo, run the quick checks of the given
-properties (evidence and replays go to work/seed-*), undo the patch. Prints which checks reported a
+properties (evidence and replays go to work/seed-*), undo the patch. With SEED_REPO=<dir> the patch goes to
+that checkout instead (development only, see labsetup.sh: a copy of /verif whose harness depends on a scratch
+worktree, so that changes can be tried while a long run is using /repo). Prints which checks reported a
 violation. Usage: seedtest.py <patch.diff> [C01 C02 ... | all]"""
 import json
 import os
@@ -8,6 +10,7 @@ import subprocess
 import sys
 
 ROOT = os.path.dirname(os.path.abspath(__file__))
+REPO = os.environ.get("SEED_REPO", "/repo")
 ALL = ["C%02d" % i for i in range(1, 21)]
 
 
@@ -21,10 +24,10 @@ def main():
     if props == ["all"]:
         props = ALL
     tier = os.environ.get("SEED_TIER", "quick")
-    if sh("git -C /repo status --porcelain").stdout.strip():
-        print("refusing: /repo is not clean")
+    if sh("git -C %s status --porcelain" % REPO).stdout.strip():
+        print("refusing: %s is not clean" % REPO)
         return 2
-    r = sh("git -C /repo apply --whitespace=nowarn %s" % patch)
+    r = sh("git -C %s apply --whitespace=nowarn %s" % (REPO, patch))
     if r.returncode != 0:
         print("patch does not apply:", r.stdout)
         return 2
@@ -40,7 +43,7 @@ def main():
             result[p] = {"exit": r.returncode, "violations": sigs[:8], "harness_errors": harness[:3], "last": r.stdout.strip().splitlines()[-1] if r.stdout.strip() else ""}
             print("%s exit=%d %s %s" % (p, r.returncode, "VIOLATION " + "; ".join(s[:90] for s in sigs[:3]) if sigs else "-", harness[:1]), flush=True)
     finally:
-        sh("git -C /repo checkout -- . && git -C /repo clean -fdq -- src crates")
+        sh("git -C %s checkout -- . && git -C %s clean -fdq -- src crates" % (REPO, REPO))
     print(json.dumps({"patch": patch, "caught_by": [p for p, v in result.items() if v["violations"]], "results": result}))
     return 0
 
